@@ -289,4 +289,4 @@ LEVEL_NOTE = (
     "Trusted base: frozen layout tables (/verif/layout) for the position of the sample area; "
     "numpy byte views; fsspec local/memory filesystems and the harness's vtrace filesystem."
 )
-TECHNIQUE = "Hypothesis-generated products, round trip against the raw sample bytes (bit-exact oracle)"
+TECHNIQUE = "Hypothesis-generated products (+ one virtual multi-GiB image), round trip against the raw sample bytes (bit-exact oracle)"
